@@ -26,6 +26,7 @@ type c08Case struct {
 	ErrAt    int    `json:"err_at,omitempty"` // which request of a multi-request op is refused (0 = the first)
 	Unsol    []int  `json:"unsolicited_before_datagram"`
 	Burst    []int  `json:"transient_burst_before_datagram"`
+	EvBurst  []int  `json:"transient_burst_before_each_unsolicited_event"` // per datagram position: burst placed before EACH unsolicited event there
 	Adv      string `json:"adversarial,omitempty"`
 	StartSeq uint32 `json:"start_seq"`
 	Seed     uint64 `json:"seed"`
@@ -99,15 +100,20 @@ func c08Exec(k *c08Case) *c08Outcome {
 	wrap := func(d []byte) []simkernel.Step {
 		var st []simkernel.Step
 		if !mainDone {
-			u, b := 0, 0
+			u, b, eb := 0, 0, 0
 			if dgIndex < len(k.Unsol) {
 				u = k.Unsol[dgIndex]
 			}
 			if dgIndex < len(k.Burst) {
 				b = k.Burst[dgIndex]
 			}
+			if dgIndex < len(k.EvBurst) {
+				eb = k.EvBurst[dgIndex]
+			}
 			dgIndex++
 			for i := 0; i < u; i++ {
+				// every single receive may fail transiently up to 9 times in a row: also the one that reads an unsolicited event
+				st = append(st, burstSteps(eb)...)
 				st = append(st, simkernel.Step{Dgram: simkernel.Event(uint16(1300+i), fmt.Sprintf("audit(1.000:%d): unsolicited", i))})
 			}
 			st = append(st, burstSteps(b)...)
@@ -264,7 +270,7 @@ func c08Check(c *mon.Ctx, k *c08Case) {
 		c.Violation("panic", fmt.Sprintf("panic %v in op %s\n%s", p, k.Op, st), k)
 		return
 	}
-	desc := fmt.Sprintf("op=%s rules=%d errno=%d@%d adv=%q unsolicited=%v bursts=%v start_seq=%d", k.Op, k.NRules, k.Errno, k.ErrAt, k.Adv, k.Unsol, k.Burst, k.StartSeq)
+	desc := fmt.Sprintf("op=%s rules=%d errno=%d@%d adv=%q unsolicited=%v bursts=%v bursts_before_events=%v start_seq=%d", k.Op, k.NRules, k.Errno, k.ErrAt, k.Adv, k.Unsol, k.Burst, k.EvBurst, k.StartSeq)
 	switch {
 	case o.ExpectOK:
 		c.Add("cases_expect_success", 1)
@@ -397,6 +403,14 @@ func c08Cases(c *mon.Ctx) []*c08Case {
 								un, bu := make([]int, nd), make([]int, nd)
 								un[pos], bu[pos] = u, b
 								add(c08Case{Op: op, NRules: nr, Errno: errno, ErrAt: ea, Unsol: un, Burst: bu})
+								if u > 0 && (errno == 0 || errno == int(syscall.EPERM)) {
+									// transient failures on BOTH sides of the unsolicited events (each run <= 9, together more than 10)
+									for _, eb := range []int{2, 4} {
+										ebs := make([]int, nd)
+										ebs[pos] = eb
+										add(c08Case{Op: op, NRules: nr, Errno: errno, ErrAt: ea, Unsol: un, Burst: bu, EvBurst: ebs})
+									}
+								}
 							}
 						}
 					}
@@ -431,6 +445,11 @@ func c08Cases(c *mon.Ctx) []*c08Case {
 				b = 1
 			}
 			k.Burst = append(k.Burst, b)
+			eb := 0
+			if r.Chance(1, 3) {
+				eb = mon.Pick(r, []int{1, 2, 3, 4})
+			}
+			k.EvBurst = append(k.EvBurst, eb)
 		}
 		if r.Chance(1, 6) {
 			k.Adv = mon.Pick(r, c08Advs)
@@ -443,7 +462,7 @@ func c08Cases(c *mon.Ctx) []*c08Case {
 func init() {
 	register(&mon.CheckSpec{
 		ID: "C08", Level: "fault_enumeration",
-		Rule: "cases = fault plans against a simulated kernel behind AuditClient.Netlink: op in {GetStatus, GetRules(0/1/3 rules), AddRule, DeleteRule, DeleteRules(0/1/3), the seven Set* in WaitForReply mode} x errno on the ACK in {0, EPERM, ENOENT, EEXIST, EINVAL, ENOMEM, EBUSY, 4095} (for DeleteRules: on the list request or on the i-th delete) x, at each datagram position in turn, every combination of 0-2 unsolicited sequence-0 events and a transient receive-failure burst in {none, 1xEINTR, 9xEINTR, 1xEAGAIN, 9 mixed}; adversarial reply streams (ACK with a stale / future / random foreign sequence, ACK of a non-ERROR type, NLMSG_DONE as ACK, short ACK payload, stream ending early, data reply of the wrong type or with a foreign sequence); plus seeded random plans with faults at every datagram and request sequences near 1 and near 2^32. After each operation a further GetStatus overwrites the one reused receive buffer and must itself succeed with its own data. distinct_nontrivial = distinct plans with at least one fault (errno, unsolicited event, transient failure or adversarial stream).",
+		Rule: "cases = fault plans against a simulated kernel behind AuditClient.Netlink: op in {GetStatus, GetRules(0/1/3 rules), AddRule, DeleteRule, DeleteRules(0/1/3), the seven Set* in WaitForReply mode} x errno on the ACK in {0, EPERM, ENOENT, EEXIST, EINVAL, ENOMEM, EBUSY, 4095} (for DeleteRules: on the list request or on the i-th delete) x, at each datagram position in turn, every combination of 0-2 unsolicited sequence-0 events and a transient receive-failure burst in {none, 1xEINTR, 9xEINTR, 1xEAGAIN, 9 mixed} before the datagram, and additionally a 9-failure burst before EACH unsolicited event (failures on both sides of an event, each run <= 9); adversarial reply streams (ACK with a stale / future / random foreign sequence, ACK of a non-ERROR type, NLMSG_DONE as ACK, short ACK payload, stream ending early, data reply of the wrong type or with a foreign sequence); plus seeded random plans with faults at every datagram and request sequences near 1 and near 2^32. After each operation a further GetStatus overwrites the one reused receive buffer and must itself succeed with its own data. distinct_nontrivial = distinct plans with at least one fault (errno, unsolicited event, transient failure or adversarial stream).",
 		Assumptions: []string{
 			"the simulated kernel follows the real kernel's script: ACK (NLMSG_ERROR with errno and echoed header) first, then the AUDIT_GET reply or LIST_RULES x n + NLMSG_DONE, nothing after a refused request",
 			"request sequence number 0 combined with unsolicited events is not generated (a reply and an event are then indistinguishable by sequence)",
@@ -480,7 +499,7 @@ func init() {
 					c08Check(c, k)
 					ev.Add(1)
 					fault := k.Errno != 0 || k.Adv != ""
-					for _, v := range append(append([]int{}, k.Unsol...), k.Burst...) {
+					for _, v := range append(append(append([]int{}, k.Unsol...), k.Burst...), k.EvBurst...) {
 						fault = fault || v != 0
 					}
 					if fault {
